@@ -5,8 +5,49 @@
  * name handling cut to identity on one-letter names.
  */
 #include "vlib.h"
+#ifdef K_TMPSYM
+#include <ctype.h>
+#undef isspace
+#define isspace(c) ((c) == ' ' || ((c) >= 9 && (c) <= 13))     /* C locale */
+/* CBMC 6.11's built-in memmove left the overlapping shift of the 3-entry log undone (counterexample did not reproduce
+   natively); a plain byte-wise memmove is substituted for this kernel */
+#include <string.h>
+static void* vmemmove(void* d, const void* s, size_t n)
+{
+  unsigned char* dd = (unsigned char*)d; const unsigned char* ss = (const unsigned char*)s; size_t i;
+  if (dd < ss) for (i = 0; i < n; i++) dd[i] = ss[i];
+  else for (i = n; i > 0; i--) dd[i - 1] = ss[i - 1];
+  return d;
+}
+#define memmove vmemmove
+#endif
 #include "src/asmpars.c"
 #include "diag.h"
+#ifdef K_TMPSYM
+/* formatter observed instead of executed: "__back%d" / "__forw%d" / "__%s%d" */
+#include <stdarg.h>
+static int cap_seen, cap_back, cap_num;
+int as_snprintf(char* pDest, size_t DestSize, const char* pFormat, ...)
+{
+  va_list ap; va_start(ap, pFormat);
+  if (DestSize) pDest[0] = 0;
+  if (pFormat[0] == '_' && pFormat[1] == '_')
+  {
+    if (pFormat[2] == '%') { const char* w = va_arg(ap, const char*); cap_back = (w[0] == 'b'); }
+    else cap_back = (pFormat[2] == 'b');
+    cap_num = va_arg(ap, int); cap_seen++;
+  }
+  va_end(ap); return 0;
+}
+int as_snprcatf(char* pDest, size_t DestSize, const char* pFormat, ...) { (void)pDest; (void)DestSize; (void)pFormat; return 0; }
+int as_sdprintf(struct as_dynstr* p_dest, const char* pFormat, ...) { (void)p_dest; (void)pFormat; return 0; }
+int as_sdprcatf(struct as_dynstr* p_dest, const char* pFormat, ...) { (void)p_dest; (void)pFormat; return 0; }
+#endif
+#ifdef K_PADLABEL
+#include "asmlabel.h"
+#include "asmstructs.h"
+PStructStack StructStack, pInnermostNamedStruct;
+#endif
 
 /* ---------- cut callees of asmpars.c (contracts) ---------- */
 Boolean ExpandStrSymbol(char* pDest, size_t DestSize, tStrComp const* pSrc)
@@ -262,6 +303,75 @@ void harness(void)
     }
     else
       CHECK(Repass, "different spelling in case-sensitive mode: unknown symbol in the first pass");
+  }
+#elif defined(K_PADLABEL)
+  {
+    /* C01 stability for a label whose address is fixed up after padding (asmlabel.c LabelHandle / LabelModify, as
+       asmcode.c InsertPadding drives them): the label is entered with the unpadded PC k and then moved to k+pad.
+       A pass that lays the label out exactly as the previous pass did must not request another pass. */
+    LargeWord k = (LargeWord)in_ev_val[0], pad = (LargeWord)in_ev_val[1];
+    ASSUME(pad <= 3 && k <= 0x7ffffff0ull);
+#ifdef KF_EXCLUDE_padded_label_livelock
+    ASSUME(pad == 0);
+#endif
+#ifdef KF_ONLY_padded_label_livelock
+    ASSUME(pad != 0);
+#endif
+    RelSegs = False; AfterBSRAddr = (LargeWord)-1; ActPC = SegCode;
+    PassNo = 1; LabelReset();
+    LabelHandle(&cL, k, False);
+    if (pad) LabelModify(k, k + pad);
+    CHECK(diag_cnt == 0 && !Repass, "first pass: defining the label raises nothing");
+    ResetSymbolDefines();
+    PassNo = 2; Repass = False; LabelReset();
+    LabelHandle(&cL, k, False);
+    if (pad) LabelModify(k, k + pad);
+    CHECK(diag_cnt == 0, "second pass: same layout raises nothing");
+    CHECK(!Repass, "a label laid out exactly as in the previous pass (same unpadded PC, same padding) requests no further pass");
+#ifndef KF_EXCLUDE_padded_label_livelock
+    if (pad) WITNESS("padded label");
+#endif
+  }
+#elif defined(K_TMPSYM)
+  {
+    /* C13: nameless temporary symbols (asmpars.c ChkTmp2, AddTmpSymLog).  NEV definitions/references in any order:
+       '-' refers to the most recent '-' or '/' definition, '--' to the one before, '---' to the third last;
+       '+', '++', '+++' refer to the next, second next, third next '+' or '/' definition; every definition gets a
+       fresh internal name.  The internal name is observed at as_snprintf (prefix back/forw and number). */
+    static const char* const txt[7] = { "-", "+", "/", "--", "---", "++", "+++" };
+    int lb[3], ln[3], depth = 0, bc = 0, fc = 0; char dest[STRINGSIZE]; static char src[4];
+    LastGlobSymbol = (char*)malloc(STRINGSIZE);
+    InitTmpSymbols();
+    for (i = 0; i < NEV; i++)
+    {
+      unsigned k = in_ev_kind[i]; int isdef = in_maychange[i] & 1, c, eb = -1, en = -1, expect_tmp = 1; Boolean r;
+      ASSUME(k < 7);
+      if (k >= 3) isdef = 0;                                   /* longer forms are references only */
+      c = (k == 0 || k == 1 || k == 2) ? 1 : (k == 3 || k == 5) ? 2 : 3;
+      if (isdef)
+      {
+        if (k == 0) { eb = 1; en = bc; }
+        else { eb = 0; en = fc; }
+        if (k != 1) { lb[2] = lb[1]; ln[2] = ln[1]; lb[1] = lb[0]; ln[1] = ln[0]; lb[0] = (k == 0); ln[0] = (k == 0) ? bc : fc; if (depth < 3) depth++; }
+        if (k == 0) bc++; else fc++;
+      }
+      else if (k == 0 || k == 3 || k == 4)                       /* backward reference */
+      {
+        if (c <= depth) { eb = lb[c - 1]; en = ln[c - 1]; } else expect_tmp = 0;
+      }
+      else if (k == 2) expect_tmp = 0;                           /* '/' is a definition only */
+      else { eb = 0; en = fc + c - 1; }
+      strcpy(src, txt[k]); cap_seen = 0;
+      r = ChkTmp2(dest, src, isdef ? e_symbol_source_label : e_symbol_source_none);
+      if (!expect_tmp) { CHECK(!r, "no such nameless symbol in sight: not expanded"); WITNESS("out of sight"); }
+      else
+      {
+        CHECK(r && cap_seen == 1, "nameless temporary symbol is expanded to one internal name");
+        CHECK(cap_back == eb, "the internal name has the prefix (back/forw) of the definition the reference denotes (n-th last '-' or '/', n-th next '+' or '/')");
+        CHECK(cap_num == en, "the internal name has the number of the definition the reference denotes");
+        if (!isdef && c == 3 && (k == 4)) WITNESS("third-last backward reference");
+      }
+    }
   }
 #endif
   WITNESS("end");
